@@ -36,6 +36,8 @@ func runC16(c *Ctx) {
 	p := c.P
 	c16CachePersisted(c)
 	c16VerifiedRefs(c)
+	c16LocalSearchLimit(c)
+	c16ModifiedIncludesUntracked(c)
 	prep := p.Fn("commands", "(*uploadContext).prepareUpload")
 	rep := p.Fn("commands", "(*uploadContext).ReportErrors")
 	if prep == nil || rep == nil {
@@ -610,4 +612,73 @@ func c16VerifiedRefs(c *Ctx) {
 		}
 	}
 	c.AtLeast("R1", "accesses to the verified-refs set", n, 2)
+}
+
+// c16LocalSearchLimit (R4, own-lock lookup): whether the committer holds the lock of a path is asked as "search
+// the cache of own locks for this path, limit 1". The limit has to count MATCHES; cutting the cached list to
+// `limit` entries before filtering looks at one arbitrary lock only, and files whose lock the user holds are made
+// read-only by the hooks. Decided on the local search: the cached list that is ranged over is not sliced, and the
+// limit is compared with a count that grows only when an entry is kept.
+func c16LocalSearchLimit(c *Ctx) {
+	p := c.P
+	// wherever the search is written (its own function, or in the callers): the list handed out by the lock cache
+	// is never sliced — the limit counts matches
+	n := 0
+	sliced := ""
+	for _, fn := range p.RepoFuncs(func(s string) bool { return s == Mod+"/locking" }) {
+		for _, b := range fn.Blocks {
+			for _, in := range b.Instrs {
+				if cc := AsCall(in); cc != nil && strings.HasSuffix(CalleeName(cc), ".Locks") && strings.Contains(CalleeName(cc), "LockCache") {
+					n++
+				}
+				sl, ok := in.(*ssa.Slice)
+				if !ok || !strings.HasSuffix(short(sl.X.Type().String()), "[]locking.Lock") || sl.High == nil {
+					continue
+				}
+				for _, l := range p.LeavesUp(sl.X, func(v ssa.Value) FlowAct {
+					if cc, _, ok := CallResult(v); ok && strings.HasSuffix(CalleeName(cc.Common()), ".Locks") {
+						return Stop
+					}
+					return Descend
+				}) {
+					if cc, _, ok := CallResult(l); ok && strings.HasSuffix(CalleeName(cc.Common()), ".Locks") && strings.Contains(CalleeName(cc.Common()), "LockCache") {
+						sliced = p.InstrPos(in)
+					}
+				}
+			}
+		}
+	}
+	c.Check(sliced == "", "R4", "local-lock-search:limit-counts-matches", "locking/locks.go", "the limit is applied to the matching locks, not to the list searched", "the cached lock list is cut to `limit` entries before it is filtered ("+sliced+"): IsFileLockedByCurrentCommitter (limit 1) then looks at one arbitrary own lock, and files the committer holds the lock of are made read-only by the post-checkout/commit/merge hooks")
+	c.AtLeast("R4", "reads of the own-locks cache list", n, 1)
+}
+
+// c16ModifiedIncludesUntracked (R2, what counts as modified): the unlock guard treats a file as modified when
+// `git status --porcelain -- <path>` prints a line for it — which includes untracked files (a new file that was
+// locked but never added). The status invocation must not hide untracked files.
+func c16ModifiedIncludesUntracked(c *Ctx) {
+	p := c.P
+	fn := p.Fn("git", "IsFileModified")
+	if fn == nil {
+		c.Missing("R2", "git.IsFileModified", "not found")
+		return
+	}
+	var consts []string
+	for _, b := range fn.Blocks {
+		for _, in := range b.Instrs {
+			if st, ok := in.(*ssa.Store); ok {
+				if s, isC := ConstString(st.Val); isC {
+					consts = append(consts, s)
+				}
+			}
+		}
+	}
+	has := func(s string) bool { return nameIn(s, consts) }
+	hides := ""
+	for _, s := range consts {
+		if strings.HasPrefix(s, "--untracked-files=no") || s == "-uno" || strings.HasPrefix(s, "--ignore-submodules") || s == "--ignored=no" && false {
+			hides = s
+		}
+	}
+	c.Check(has("status") && has("--porcelain") && has("--") && hides == "", "R2", "IsFileModified:status-sees-untracked", p.Pos(fn.Pos()), "git status --porcelain -- <path>, untracked files included",
+		"the status call behind the unlock guard runs with "+hides+": an untracked (new, never added) locked file counts as unmodified and its lock is released without --force")
 }
